@@ -327,6 +327,10 @@ def _menus():
     add("BinPack", "r10e30o8huge", bp(lambda: bpg.RandomGenerator(10, 30, split_num_same_items=2,
                                                                    container_dims=(60000, 40000, 5000)), obs=8),
         gen="random", items=10, ems=30)
+    # obs_num_ems left at its default (40) with a generator that keeps fewer EMSs (10)
+    add("BinPack", "r5e10dflt", lambda **k: E.BinPack(generator=bpg.RandomGenerator(5, 10, split_num_same_items=1,
+                                                                                   container_dims=(10, 7, 5))),
+        gen="random", items=5, ems=10)
     add("BinPack", "csvtiny", bp(lambda: bpg.CSVGenerator(_binpack_tiny_csv_path(), max_num_ems=20), obs=20), gen="csv")
     add("BinPack", "csvtiny_sparse", bp(lambda: bpg.CSVGenerator(_binpack_tiny_csv_path(), max_num_ems=20), obs=20,
                                         rw="sparse"), gen="csv")
